@@ -51,7 +51,9 @@ def run(ctx):
     for _ in range(ctx.n(2500, 30000)):
         ds = [ctx.rng.choice(DOCS) for _ in range(ctx.rng.choice([1, 2, 3, 4]))]
         ds = [d if (i == 0 or d.startswith(('---', '%'))) else '--- ' + d for i, d in enumerate(ds)]
-        seps = ['' if not d.startswith('%') or i == 0 else '...\n' for i, d in enumerate(ds)]      # a directive after a document needs an explicit document end
+        # a directive after a document needs an explicit document end - except after an explicit document without content, whose end is the directive itself
+        EMPTY = ('---\n', '--- # comment only\n', '--- &r\n', '--- !!str\n')
+        seps = ['' if not d.startswith('%') or i == 0 or (ds[i - 1] in EMPTY and ctx.rng.random() < 0.6) else '...\n' for i, d in enumerate(ds)]
         streams.append([ds, ctx.rng.choice(['py', 'c']), seps])
     corr.direct(ctx, 'c11s', streams, describe=lambda c: dict(docs_text=c[0], backend=c[1], seps=c[2]), label='stream')
     ctx.partial = [dict(theorem='stream_is_list_of_docs / parser_doc_independent / serializer and representer resets', missing='global-write confinement (regenerated) and the per-document reset of the load model are proved; the rest is decided by correspondence and the direct history run')]
